@@ -90,6 +90,22 @@ func judgeEnsure(c *core.Ctx, sc *SeqCase, o V5Opts) {
 	if want.OutOfDom != "" {
 		c.Count("out_of_domain")
 		c.Count("ood:" + want.OutOfDom)
+		if want.OutOfDom == "ensure: bad array token" && len(sc.Ops) == 1 && sc.Ops[0].Kind == "add" {
+			// a member-name token where the document holds an array: whether that is an error is not
+			// stated, but an add that reports success must have put the value at the path
+			r := ApplyV5(sc.DocText, sc.Patch(), o, "")
+			c.Eval(1)
+			if r.Panic == nil && r.Err == nil && r.DecodeErr == nil {
+				got, err := jr.Parse(r.Out)
+				if err != nil || got.Resolve(sc.Ops[0].Path) == nil || !jr.Equal(got.Resolve(sc.Ops[0].Path), sc.Ops[0].Value, jr.EqMode{}) {
+					d := sc.Describe()
+					d["options"], d["library_output"] = o.String(), clip(string(r.Out), 1500)
+					c.Violation("add-reports-success-but-value-not-at-path", d)
+					return
+				}
+			}
+			c.Count("name-token-on-array:checked")
+		}
 		return
 	}
 	c.Count("in_domain")
@@ -308,6 +324,79 @@ func init() {
 				path := paths[idx/len(ensureDocs)]
 				sc := &SeqCase{DocText: doc, Doc: mustParse(doc), Ops: []ref.Op{{Kind: "add", Path: path, Value: mustParse(val), HasValue: true}}, OpTexts: []string{OpText("add", path, "", val, true)}}
 				judgeEnsure(c, sc, V5Opts{NegIdx: idx%3 != 0, EscapeHTML: true})
+			}},
+			{Name: "shrink-then-pad", Count: n(15000, 400000), Run: func(c *core.Ctx, idx int) {
+				// arrays that were in the document lose elements (remove, move away) and are then padded by an
+				// add through an index beyond their new end: the padding must be null, not what used to be there
+				o := V5Opts{NegIdx: true, EscapeHTML: true, EnsurePath: true}
+				ap := prof.With(func(p *gen.Profile) { p.ScalarBias = 20; p.NoNull = true; p.Width = 6 })
+				sc := &SeqCase{Opts: o.Ref()}
+				sc.DocText = ap.Root(c.R)
+				sc.Doc = mustParse(sc.DocText)
+				e := ref.New(sc.Doc, o.Ref())
+				var arrays []string
+				e.Root.Walk("", func(ptr string, x *jr.Value) {
+					if x.K == jr.Arr && len(x.A) >= 2 {
+						arrays = append(arrays, ptr)
+					}
+				})
+				if len(arrays) == 0 {
+					return
+				}
+				at := arrays[c.R.Intn(len(arrays))]
+				push := func(op ref.Op, text string) bool {
+					sc.Ops = append(sc.Ops, op)
+					sc.OpTexts = append(sc.OpTexts, text)
+					return e.Step(op) == ref.OK
+				}
+				for k := 1 + c.R.Intn(3); k > 0; k-- {
+					cur := valueAt(e, at)
+					if cur == nil || len(cur.A) == 0 {
+						break
+					}
+					i := c.R.Intn(len(cur.A))
+					if c.R.Intn(3) == 0 && at != "" {
+						if !push(ref.Op{Kind: "move", From: at + "/" + fmt.Sprint(i), Path: "/moved" + fmt.Sprint(k)}, OpText("move", "/moved"+fmt.Sprint(k), at+"/"+fmt.Sprint(i), "", false)) {
+							return
+						}
+					} else if !push(ref.Op{Kind: "remove", Path: at + "/" + fmt.Sprint(i)}, OpText("remove", at+"/"+fmt.Sprint(i), "", "", false)) {
+						return
+					}
+				}
+				cur := valueAt(e, at)
+				if cur == nil {
+					return
+				}
+				pth := at + "/" + fmt.Sprint(len(cur.A)+c.R.Intn(3)) + []string{"/x", "/0", "/-", "/x/y"}[c.R.Intn(4)]
+				push(ref.Op{Kind: "add", Path: pth, Value: mustParse(`"v"`), HasValue: true}, OpText("add", pth, "", `"v"`, true))
+				c.Count("shrink-then-pad:cases")
+				want := ref.Eval(sc.Doc, sc.Ops, o.Ref())
+				res := ApplyV5(sc.DocText, sc.Patch(), o, "")
+				c.Eval(1)
+				if want.OutOfDom != "" {
+					c.Count("out_of_domain")
+					return
+				}
+				d := sc.Describe()
+				d["options"], d["library_output"], d["library_error"] = o.String(), clip(string(res.Out), 1500), errText(res.Err)
+				if res.Panic != nil {
+					d["panic"] = panicDetail(res.Panic)
+					c.Violation(res.Panic.Sig(), d)
+					return
+				}
+				if (want.Doc == nil) != (res.Err != nil) {
+					c.Violation("shrink-then-pad:success-differs-from-reference", d)
+					return
+				}
+				if want.Doc != nil {
+					got, err := jr.Parse(res.Out)
+					if err != nil || !jr.Equal(want.Doc, got, jr.EqMode{}) {
+						d["reference"] = clip(want.Doc.String(), 1500)
+						c.Violation("shrink-then-pad:value-mismatch-with-reference", d)
+						return
+					}
+					c.Nontrivial(sc.Canon())
+				}
 			}},
 			{Name: "random-paths-then-ops", Count: n(50000, 1200000), Run: func(c *core.Ctx, idx int) {
 				o := V5Opts{NegIdx: c.R.Intn(2) == 0, EscapeHTML: c.R.Intn(2) == 0, EnsurePath: true}
